@@ -84,12 +84,13 @@ CHECKS = {
     ),
     "C02": dict(
         jobs=rc_jobs("c02", "C02", "snap_destruct", focused="c02f", extra=[choreo_job("C02", "snap_destruct"), scen_job("c02", "C02"), dict(name="scen-d13", variant="debug", stage=0, args=["scen", "--which", "d13", "--prop", "C02"], shards=dict(quick=1, thorough=1)), dict(name="scen-d10", variant="debug", stage=0, args=["scen", "--which", "d10", "--prop", "C02"], shards=dict(quick=1, thorough=1)), d14_job("d14s", "C02")]),
-        rule=RULE_RC + "the execution contained a destruct attempt (root or cascade) on an object for which a Snapshot record existed",
+        rule=RULE_RC + "the execution contained a destruct attempt (root or cascade) on an object for which a Snapshot record existed; plus scripted scenario d14: a reader keeps a Snapshot under an outer "
+             "guard while it re-activates / re-creates / flushes inner guards or retires bursts of 70 objects under the outer guard (10 kinds of work) and another thread unlinks the object and drives collection rounds in lock step",
         accept=["C02"], assumptions=RC_ASSUME, floor=dict(quick=50, thorough=500),
     ),
     "C03": dict(
         jobs=rc_jobs("c03", "C03", "weak_dealloc", focused="c03f", extra=[choreo_job("C03", "weak_dealloc", "c03g"), choreo_job("C03", "weak_dealloc", "c03h"), d14_job("d14w", "C03")]),
-        rule=RULE_RC + "the execution deallocated an object that had at least one weak holder",
+        rule=RULE_RC + "the execution deallocated an object that had at least one weak holder; plus scenario d14 with a WeakSnapshot held under the outer guard (see C02)",
         accept=["C03"], assumptions=RC_ASSUME, floor=dict(quick=50, thorough=500),
     ),
     "C04": dict(
@@ -99,7 +100,8 @@ CHECKS = {
     ),
     "C05": dict(
         jobs=rc_jobs("c05", "C05", "upgrade_race", focused="c05f", extra=[choreo_job("C05", "upgrade_race"), choreo_job("C05", "upgrade_race", "c01g"), scen_job("c05", "C05"), seq_job("c05", "debug"), seq_job("c05", "release")]),
-        rule=RULE_RC + "an upgrade whose interval overlaps or follows a destruct attempt on its target",
+        rule=RULE_RC + "an upgrade whose interval overlaps or follows a destruct attempt on its target; plus a sequential sweep on chains longer than the recursion cut-off (n up to 3100): weak pointers to the nodes "
+             "around depths 1024/2048/3072 (and others) are upgraded every 9th collection round with a phase that sweeps over the cases, released at once or held for some rounds",
         accept=["C05"], accept_sig=[r"origin=WeakSnapshot::upgrade", r"via=(Weak|WeakSnapshot)::upgrade"], assumptions=RC_ASSUME, floor=dict(quick=20, thorough=200),
     ),
     "C08": dict(
@@ -126,7 +128,8 @@ CHECKS = {
     "C07": dict(
         jobs=[proc_job("c07", "release"), proc_job("c07", "debug")],
         rule="inputs = (build, shape in chain/tree/comb/dag, n up to 1 000 000 (thorough 4 000 000), thread stack size); each runs in a child process that "
-             "builds the structure, drops it on a thread with that stack, drives collection rounds and reports drops==n; death by signal = overflow; "
+             "builds the structure, drops it on a thread with that stack, drives collection rounds and reports drops==n; death by signal = overflow; shapes chain-weak-traffic / chain-upgrade-traffic: "
+             "three more threads keep cloning+dropping / upgrading+dropping Weak pointers to the nodes the cascade is about to reach (every lost race inside the cascade must not cost stack); "
              "distinct = distinct inputs, all non-trivial",
         accept=["C07"], assumptions=["stack sizes that must survive: release 256 KiB-8 MiB, debug (opt-level 1) 1-8 MiB; smaller sizes are probed for the open finding"],
         floor=dict(quick=20, thorough=40),
@@ -172,8 +175,9 @@ CHECKS = {
     ),
     "C20": dict(
         jobs=[proc_job("c20", "debug"), proc_job("c20", "release")],
-        rule="inputs = (build, API call made from a thread-local destructor (12 kinds), TLS order relative to circ's handle (before/after/no other use/both), threads, main-thread exit); "
-             "each runs in a child process; oracle: exit 0, no panic, every TLS destructor ran, all objects destructed after <=400 rounds on the surviving thread; distinct = distinct inputs",
+        rule="inputs = (build, API call made from a thread-local destructor (19 kinds), TLS order relative to circ's handle (before/after/no other use/both), threads, main-thread exit); "
+             "each runs in a child process; oracle: exit 0, no panic, every TLS destructor ran, all objects destructed after <=400 rounds on the surviving thread; the calls include retiring through one guard before and after "
+             "a flush / 100 times; case first-use-race: 4-12 threads enter their first critical section within a few hundred ns of each other in a process that never used the library; distinct = distinct inputs",
         accept=["C20"], assumptions=["a wall-clock timeout of a child is recorded as inconclusive, never as a violation"],
         floor=dict(quick=100, thorough=100),
     ),
@@ -223,12 +227,14 @@ CHECKS.update({
                     dict(name="c16rc-S", variant="debug", stage=0, args=["rc", "--profile", "c16rc", "--mode", "S", "--prop", "C13", "--relevant", "any_destruct"],
                          shards=dict(quick=10, thorough=16), secs=dict(quick=20, thorough=200)),
                     choreo_job("C13", "snap_destruct"), d14_job("d14s", "C13")],
-                accept_sig=[r"^C02\|destruct-while-snapshot", r"^C02\|deref-dead"], rule=RULE_EBR + "a closure was deferred while at least one foreign guard was registered",
+                accept_sig=[r"^C02\|destruct-while-snapshot", r"^C02\|deref-dead"], rule=RULE_EBR + "a closure was deferred while at least one foreign guard was registered; plus the reference-counting layer on top: c16rc, the late-reader choreography c02g and scenarios d13/d14 (what a pinned thread references must outlive its critical section)",
                 accept=["C13"], assumptions=EBR_ASSUME, floor=dict(quick=50, thorough=500)),
     "C14": dict(jobs=ebr_jobs("c14", "C14") + rc_jobs("c14", "C14", "cascade", s_secs=(8, 60), p_secs=(4, 30), asan=False)[:1] + [d14_job("d14", "C14")],
-                rule=RULE_EBR + "the global epoch advanced while a foreign guard was registered (every yield point samples the global epoch and every registered guard's announced epoch)",
+                rule=RULE_EBR + "the global epoch advanced while a foreign guard was registered (every yield point samples the global epoch, every registered guard's announced epoch and the epoch each live guard was taken at: "
+                     "global - taken must stay in {0,1} for as long as the guard lives); plus scenario d14 (work under an outer guard, see C02)",
                 accept=["C14"], assumptions=EBR_ASSUME, floor=dict(quick=50, thorough=500)),
-    "C15": dict(jobs=ebr_jobs("c15", "C15"), rule=RULE_EBR + "at least one closure was deferred (each execution ends with survivor rounds or with dropping the collector and checks every closure's counter == 1)",
+    "C15": dict(jobs=ebr_jobs("c15", "C15"), rule=RULE_EBR + "at least one closure was deferred (each execution ends with survivor rounds or with dropping the collector and checks every closure's counter == 1; one survivor variant first seals a burst of 20-300 "
+                     "single-closure bags in one epoch, lets three advances pass and then parks a participant inside a critical section: everything deferred before must still run within the bound)",
                 accept=["C15"], assumptions=EBR_ASSUME, floor=dict(quick=50, thorough=500)),
     "C16": dict(jobs=ebr_jobs("c16", "C16", extra=[
                     dict(name="c16-enum", variant="release", stage=0, args=["c16enum", "--len", "{len}"], shards=dict(quick=1, thorough=1)),
